@@ -14,7 +14,7 @@ func init() {
 		id: "C15",
 		li: levelInfo{
 			Level:       "other",
-			Explanation: "Static rules on the host set and the health monitor. R1 (lockset analysis): the member map and the two healthy tiers are read only under the set's read or write lock and written only under the write lock; helpers that touch them without locking are entered only with the lock held (constructor exempt). R2: every function that writes or replaces a healthy tier reaches buildHealthyCache on every path. R3: healthy() returns the main tier iff it is non-empty, else the backup tier. R4: the cache is built from the keys of one map, sorted before use, into a freshly allocated slice that is never one handed out before. R5: the two hysteresis counters are mirror images, both setters reset both, every check outcome reaches exactly one counter increment, thresholds are paired with the right mark function. R6: a removed address has markRemoved called on the stored object. R7: an address overwritten in the member map has its previous object purged from the healthy tiers first. Interleavings of the lock-free health flag CAS with set operations are not decided. R7 also orders the purge of a replaced object before the insertion of the new one. R8 (tier identity): tier mutators are called only with the stored object (loaded from the member map, just stored with nothing in between, or identity-tested). R9: the snapshot handed out by Healthy() is never written or sorted in place by a reader. R10: from every delete on the member map the stored object reaches a tier purge on every path, independent of its health flag. R11: the health state object of a host (flag and check streaks) is written at construction only. R6 also requires an overwritten member object to be notified. R2 also: every store into the healthy-hosts cache happens under the set's write lock; the cache builder is found by role.",
+			Explanation: "Static rules on the host set and the health monitor. R1 (lockset analysis): the member map and the two healthy tiers are read only under the set's read or write lock and written only under the write lock; helpers that touch them without locking are entered only with the lock held (constructor exempt). R2: every function that writes or replaces a healthy tier reaches buildHealthyCache on every path. R3: healthy() returns the main tier iff it is non-empty, else the backup tier. R4: the cache is built from the keys of one map, sorted before use, into a freshly allocated slice that is never one handed out before. R5: the two hysteresis counters are mirror images, both setters reset both, every check outcome reaches exactly one counter increment, thresholds are paired with the right mark function. R6: a removed address has markRemoved called on the stored object. R7: an address overwritten in the member map has its previous object purged from the healthy tiers first. Interleavings of the lock-free health flag CAS with set operations are not decided. R7 also orders the purge of a replaced object before the insertion of the new one. R8 (tier identity): tier mutators are called only with the stored object (loaded from the member map, just stored with nothing in between, or identity-tested). R9: the snapshot handed out by Healthy() is never written or sorted in place by a reader. R10: from every delete on the member map the stored object reaches a tier purge on every path, independent of its health flag. R11: the health state object of a host (flag and check streaks) is written at construction only. R6 also requires an overwritten member object to be notified. R2 also: every store into the healthy-hosts cache happens under the set's write lock; the cache builder is found by role. R12: no store through a pointer to a configuration message (pb/) held in a field - configuration objects are shared.",
 			TrustedBase: []string{"go/ssa", "samlint elock.go"},
 		},
 		run: checkC15,
